@@ -391,6 +391,12 @@ public:
     virtual size_t scope_depth() const { return 0; }
     /** Closes the scopes opened beyond the given depth. */
     virtual void restore_scope(size_t depth) {}
+    /** The number of expressions on the operand stack. A block that fails to parse leaves the operands it had pushed
+     * so far; callers identify the operands of the blocks that did parse by their distance from the top, so the
+     * parser drops what a failed block left (restore_operands with the depth noted before the block). */
+    virtual size_t operand_depth() const { return 0; }
+    /** Drops the operands pushed beyond the given depth. */
+    virtual void restore_operands(size_t depth) {}
 
     virtual void handle_expect(const char* text) = 0;
 
